@@ -65,6 +65,10 @@ type HarnessReport struct {
 	SolverUnsat  int
 	SolverUnk    int
 	SolverSec    float64
+	CrossAsked   int
+	CrossAgree   int
+	CrossDis     int
+	CrossUnk     int
 	Samples      []map[string]interface{}
 	InternalErrs []string
 }
@@ -84,6 +88,8 @@ type ExploreOpts struct {
 	MaxFindings     int
 	SolverName      string
 	MaxDecisions    int
+	CrossSolver     string // second-opinion solver ("z3-new", "cvc5"), "" = none
+	CrossEvery      int
 }
 
 func (w *World) newInterp(s *Solver, opts *ExploreOpts) *Interp {
@@ -307,6 +313,23 @@ func (w *World) Explore(name string, opts ExploreOpts) *HarnessReport {
 			mu.Unlock()
 			return
 		}
+		var cross *CrossCheck
+		if opts.CrossSolver != "" {
+			cross = &CrossCheck{Name: opts.CrossSolver, Every: opts.CrossEvery}
+		}
+		defer func() {
+			if cross != nil {
+				mu.Lock()
+				rep.CrossAsked += cross.Asked
+				rep.CrossAgree += cross.Agree
+				rep.CrossDis += cross.Disagree
+				rep.CrossUnk += cross.Unknown
+				mu.Unlock()
+				if cross.S != nil {
+					cross.S.Close()
+				}
+			}
+		}()
 		defer func() {
 			mu.Lock()
 			rep.SolverSat += solver.NSat
@@ -332,6 +355,7 @@ func (w *World) Explore(name string, opts ExploreOpts) *HarnessReport {
 			mu.Unlock()
 
 			in := w.newInterp(solver, &opts)
+			in.Cross = cross
 			res := in.RunPath(fn, prefix)
 
 			mu.Lock()
